@@ -3,6 +3,8 @@ regenerated into lean/Operon/Gen/GatesTranslated.lean on every run of ./check C1
 
 Translated (namespace Operon.Gates.Tr):
   checkRateLimit   Membrane._check_rate_limit                     : Membrane -> now -> Bool x List Nat
+  rateProgram      the same method as a program over the SHARED window (statements that read / write
+                   `_request_times`, in order, and where the lock is taken) : Option (List RInstr), see rate_program()
   filter           Membrane.filter, WHOLE, by symbolic execution  : Env -> Membrane -> now -> content -> Membrane x FilterOut
   innateAllow      the allow rule of InnateImmunity.check
   newLevel         the level chain of the inflammation function
@@ -981,6 +983,137 @@ def tr_validator(tree, clsname, lean_name, params, env):
 
 
 # ------------------------------------------------------------------------------------------------------------------
+
+# ------------------------------------------------------------------------------------------------------------------
+# the rate check as a CONCURRENT program: which statements touch the shared window, and where the lock is taken
+# ------------------------------------------------------------------------------------------------------------------
+def rate_program(tree):
+    """`_check_rate_limit` (found through the call graph from `filter`: the self-method that touches
+    `self._request_times`; helpers it calls inlined) as the instruction list of Operon/Model/RateConc.lean:
+    guardNone / acquire / readClock / pruneShared / testShared / appendShared / retFalse.  Only the SHAPE matters here
+    (which statements read or write `_request_times`, in which order, inside or outside `with self.<lock>:`); what each
+    statement computes is the business of `Tr.checkRateLimit`.  Local pure assignments, logging, docstrings are skipped.
+    Anything else that touches `_request_times` (a snapshot into a local, an access through a helper's return value,
+    statements after the `with` block, explicit acquire()/release()) is outside the subset -> Unsupported."""
+    cls = find_class(tree, "Membrane")
+    methods = {n.name: n for n in cls.body if isinstance(n, ast.FunctionDef)}
+
+    def touches(fn, seen=()):
+        if fn.name in seen:
+            return False
+        for n in ast.walk(fn):
+            if is_self(n, "_request_times"):
+                return True
+            if isinstance(n, ast.Call) and is_self(n.func) and n.func.attr in methods \
+                    and touches(methods[n.func.attr], seen + (fn.name,)):
+                return True
+        return False
+
+    def reads_shared(node):
+        for n in ast.walk(node):
+            if is_self(n, "_request_times"):
+                return True
+            if isinstance(n, ast.Call) and is_self(n.func) and n.func.attr in methods and touches(methods[n.func.attr]):
+                return True
+        return False
+
+    entry = None
+    for n in ast.walk(methods.get("filter") or bad(cls, "no filter method")):
+        if isinstance(n, ast.Call) and is_self(n.func) and n.func.attr in methods and touches(methods[n.func.attr]):
+            entry = methods[n.func.attr]
+            break
+    if entry is None:
+        bad(cls, "filter calls no method that touches _request_times")
+
+    prog = []
+    tx = MembraneTx(tree)
+
+    def mentions_limit(node):
+        return any(is_self(n, "rate_limit") for n in ast.walk(node))
+
+    def walk(stmts, locked, depth, top):
+        """returns True when every path through `stmts` ends in a return"""
+        for k, st in enumerate(stmts):
+            if tx.is_noop(st):
+                continue
+            if isinstance(st, ast.With):
+                items = st.items
+                if len(items) != 1 or not is_self(items[0].context_expr) or items[0].optional_vars is not None:
+                    bad(st, "with-statement other than `with self.<lock>:`")
+                if locked:
+                    bad(st, "nested lock")
+                prog.append("acquire")
+                done = walk(st.body, True, depth, False)
+                if not done:
+                    bad(st, "control leaves the `with` block without returning")
+                if [x for x in stmts[k + 1:] if not tx.is_noop(x)]:
+                    bad(st, "statements after the `with` block")
+                return True
+            if isinstance(st, ast.If):
+                test, body, orelse = st.test, st.body, st.orelse
+                is_none = isinstance(test, ast.Compare) and len(test.ops) == 1 and isinstance(test.ops[0], ast.Is) \
+                    and is_self(test.left, "rate_limit") and isinstance(test.comparators[0], ast.Constant) \
+                    and test.comparators[0].value is None
+                real = [x for x in body if not tx.is_noop(x)]
+                ret = real[0] if len(real) == 1 and isinstance(real[0], ast.Return) else None
+                if is_none and ret is not None and not orelse and isinstance(ret.value, ast.Constant) \
+                        and ret.value.value is False:
+                    prog.append("guardNone")
+                    continue
+                if reads_shared(test) and mentions_limit(test) and ret is not None and not orelse \
+                        and isinstance(ret.value, ast.Constant) and ret.value.value is True:
+                    if any(isinstance(n, ast.Call) and is_self(n.func) for n in ast.walk(test)):
+                        bad(st, "window test through a helper")
+                    prog.append("testShared")
+                    continue
+                bad(st, f"if-statement {ast.unparse(test)[:40]}")
+            if isinstance(st, ast.Return):
+                if isinstance(st.value, ast.Constant) and st.value.value is False:
+                    prog.append("retFalse")
+                    return True
+                if isinstance(st.value, ast.Call) and is_self(st.value.func) and st.value.func.attr in methods \
+                        and not st.value.keywords and depth < 4:
+                    return walk(methods[st.value.func.attr].body, locked, depth + 1, False)
+                bad(st, f"return {ast.unparse(st.value)[:30] if st.value is not None else ''}")
+            if isinstance(st, ast.AnnAssign) and st.value is not None:
+                st = ast.copy_location(ast.Assign(targets=[st.target], value=st.value), st)
+            if isinstance(st, ast.Assign) and len(st.targets) == 1:
+                tg, v = st.targets[0], st.value
+                if is_self(tg, "_request_times"):
+                    if not reads_shared(v):
+                        bad(st, "_request_times replaced by something not derived from it")
+                    prog.append("pruneShared")
+                    continue
+                if is_self(tg):
+                    bad(st, f"assignment to self.{tg.attr}")
+                if ast.unparse(v).replace(" ", "") == "time.time()":
+                    prog.append("readClock")
+                    continue
+                if reads_shared(v):
+                    bad(st, "the shared window is read into a local (snapshot)")
+                continue                      # pure local
+            if isinstance(st, ast.Expr) and isinstance(st.value, ast.Call):
+                c = st.value
+                if isinstance(c.func, ast.Attribute) and is_self(c.func.value, "_request_times"):
+                    if c.func.attr == "append" and len(c.args) == 1:
+                        prog.append("appendShared")
+                        continue
+                    bad(st, f"_request_times.{c.func.attr}")
+                if is_self(c.func) and c.func.attr in methods and not c.keywords and depth < 4:
+                    if walk(methods[c.func.attr].body, locked, depth + 1, False):
+                        bad(st, "helper that returns a value used as a statement")
+                    continue
+                if reads_shared(c):
+                    bad(st, f"call {ast.unparse(c.func)[:40]} on the shared window")
+                bad(st, f"call {ast.unparse(c.func)[:40]}")
+            bad(st, f"statement {type(st).__name__}")
+        return False
+
+    if not walk(entry.body, False, 0, True):
+        bad(entry, "a path through the rate check does not return")
+    return prog
+
+
 SIGS = {
     "checkRateLimit": "def Tr.checkRateLimit (m : Membrane) (now : Nat) : Bool × List Nat :=",
     "filter": "def Tr.filter (env : Env) (m : Membrane) (now : Nat) (c : Str) : Membrane × FilterOut :=",
@@ -1068,6 +1201,18 @@ def generate(repo: Path, membrane_mod=None, innate_mod=None):
     attempt("filter", lambda: mem_piece("filter"),
             "translation of `Membrane.filter` with every helper it calls inlined (rate check, refusals, scan, bookkeeping, hook)")
     try:
+        if mtree is None:
+            raise Unsupported("source does not parse")
+        prog = rate_program(mtree)
+        parts.append("/-- the rate check of the current source as a program over the shared window: which statements read or\n"
+                     "    write `_request_times`, in source order, and where `with self.<lock>:` is entered -/\n"
+                     "def Tr.rateProgram : Option (List RInstr) :=\n  some [" + ", ".join("." + x for x in prog) + "]\n")
+    except Exception as e:  # noqa  (fail closed)
+        info["unsupported"]["rateProgram"] = str(e)
+        why = str(e).replace("-/", "- /")
+        parts.append(f"/-- the rate check as a program over the shared window: NOT TRANSLATED ({why}) -/\n"
+                     "def Tr.rateProgram : Option (List RInstr) := none\n")
+    try:
         if itree is None:
             raise Unsupported("source does not parse")
         MODULE_CONSTS.clear()
@@ -1089,7 +1234,7 @@ def generate(repo: Path, membrane_mod=None, innate_mod=None):
     attempt("jsonValidate", lambda: tr_validator(itree, "JSONValidator", "jsonValidate", "(env : Env) (md ms : Nat)",
                                                  {"content": ("content", "str"), "self.max_depth": ("md", "nat"),
                                                   "self.max_size": ("ms", "nat")}), "")
-    text = ("import Operon.Model.Membrane\nimport Operon.Model.Innate\n"
+    text = ("import Operon.Model.Membrane\nimport Operon.Model.Innate\nimport Operon.Model.RateConc\n"
             "/- GENERATED by harness/vf/extract/py2lean_gates.py from operon_ai/organelles/membrane.py and\n"
             "   operon_ai/surveillance/innate.py on every run of ./check C10; do not edit.  Each definition is the\n"
             "   translation of the named piece of Python (see the translator for the supported subset).\n"
